@@ -156,6 +156,13 @@ impl Covercrypt {
         encapsulation: &XEnc,
     ) -> Result<(Secret<32>, XEnc), Error> {
         let (_ss, rights) = full_decaps(msk, encapsulation)?;
+        // Only the rights that can still be encrypted for are targeted.
+        let rights = primitives::filter_encryption_rights(mpk, rights);
+        if rights.is_empty() {
+            return Err(Error::OperationNotPermitted(
+                "the MPK holds no key for the rights of this encapsulation".to_string(),
+            ));
+        }
         primitives::encaps(
             &mut *self.rng.lock().expect("Mutex lock failed!"),
             mpk,
